@@ -94,9 +94,34 @@ class Ev:
         self.methods = methods or {}
         self.steps = 0
         self.max_steps = max_steps
+        self.yielded: list = []
 
     def bad(self, node: ast.AST, why: str = "") -> Unsupported:
         return Unsupported(f"{self.where}: unsupported construct for the order-abstraction evaluator{': ' + why if why else ''}: `{ast.unparse(node)[:80]}`")
+
+    # ------------------------------------------------------------ dunder dispatch on model objects
+    def dunder(self, obj: "Obj", name: str) -> Callable | None:
+        for k in obj.kinds:
+            m = self.methods.get((k, name))
+            if m is not None:
+                return m
+        return None
+
+    def to_str(self, v: Any) -> str:
+        if isinstance(v, Obj):
+            m = self.dunder(v, "__str__")
+            if m is None:
+                raise Unsupported(f"{self.where}: str() of a model object without __str__: {v!r}")
+            return m(v)
+        return str(v)
+
+    def iterate(self, v: Any) -> list:
+        if isinstance(v, Obj):
+            m = self.dunder(v, "__iter__")
+            if m is None:
+                raise _ModelRaise("TypeError: not iterable")
+            return list(m(v))
+        return list(v)
 
     # ------------------------------------------------------------ expressions
     def ev(self, n: ast.expr) -> Any:  # noqa: PLR0911, PLR0912
@@ -116,7 +141,15 @@ class Ev:
             if isinstance(base, Obj):
                 if n.attr in base.__dict__:
                     return base.__dict__[n.attr]
-                raise self.bad(n, f"model object has no attribute {n.attr}")
+                for k in base.kinds:
+                    prop = self.methods.get((k, "@" + n.attr))
+                    if prop is not None:
+                        return prop(base)
+                for k in base.kinds:
+                    m = self.methods.get((k, n.attr))
+                    if m is not None:
+                        return _Bound(base, m)
+                raise _ModelRaise(f"AttributeError: {n.attr}")
             if isinstance(base, Sym):
                 return Sym(f"{base.name}.{n.attr}")
             raise self.bad(n, "attribute of a non-model value")
@@ -126,8 +159,18 @@ class Ev:
                 lo = self.ev(n.slice.lower) if n.slice.lower is not None else None
                 hi = self.ev(n.slice.upper) if n.slice.upper is not None else None
                 st = self.ev(n.slice.step) if n.slice.step is not None else None
+                if isinstance(base, Obj):
+                    m = self.dunder(base, "__getitem__")
+                    if m is None:
+                        raise _ModelRaise("TypeError: not subscriptable")
+                    return m(base, slice(lo, hi, st))
                 return base[lo:hi:st]
             idx = self.ev(n.slice)
+            if isinstance(base, Obj):
+                m = self.dunder(base, "__getitem__")
+                if m is None:
+                    raise _ModelRaise("TypeError: not subscriptable")
+                return m(base, idx)
             try:
                 return base[idx]
             except (IndexError, KeyError) as err:
@@ -186,13 +229,26 @@ class Ev:
             return v
         if isinstance(n, ast.Call):
             return self.call(n)
+        if isinstance(n, ast.Yield):
+            self.yielded.append(self.ev(n.value) if n.value is not None else None)
+            return None
+        if isinstance(n, ast.YieldFrom):
+            self.yielded.extend(self.iterate(self.ev(n.value)))
+            return None
+        if isinstance(n, ast.Dict):
+            return {self.ev(k): self.ev(v) for k, v in zip(n.keys, n.values) if k is not None}
         if isinstance(n, ast.JoinedStr):
             out = []
             for part in n.values:
                 if isinstance(part, ast.Constant):
                     out.append(str(part.value))
                 elif isinstance(part, ast.FormattedValue) and part.format_spec is None and part.conversion == -1:
-                    out.append(str(self.ev(part.value)))
+                    out.append(self.to_str(self.ev(part.value)))
+                elif isinstance(part, ast.FormattedValue) and part.format_spec is None and part.conversion == ord("r"):
+                    v_ = self.ev(part.value)
+                    if isinstance(v_, Obj):
+                        raise self.bad(n, "repr of a model object")
+                    out.append(repr(v_))
                 else:
                     raise self.bad(n, "format spec or conversion")
             return "".join(out)
@@ -204,7 +260,7 @@ class Ev:
         g = n.generators[0]
         out = []
         saved = dict(self.env)
-        for item in list(self.ev(g.iter)):
+        for item in self.iterate(self.ev(g.iter)):
             self.assign(g.target, item)
             if all(self.ev(i) for i in g.ifs):
                 out.append(self.ev(n.elt))
@@ -213,9 +269,10 @@ class Ev:
         return set(out) if isinstance(n, ast.SetComp) else out
 
     def call(self, n: ast.Call) -> Any:  # noqa: PLR0911, PLR0912
-        if n.keywords and not all(k.arg in ("key", "reverse", "default", "start") for k in n.keywords):
-            raise self.bad(n, "keyword arguments")
         f = n.func
+        callee_is_model = (isinstance(f, ast.Name) and f.id in self.env and callable(self.env[f.id])) or isinstance(f, ast.Attribute)
+        if n.keywords and not callee_is_model and not all(k.arg in ("key", "reverse", "default", "start") for k in n.keywords):
+            raise self.bad(n, "keyword arguments")
         if isinstance(f, ast.Name):
             if f.id == "isinstance":
                 obj = self.ev(n.args[0])
@@ -228,11 +285,20 @@ class Ev:
                     return isinstance(obj, tuple(prim[x] for x in names))
                 return False
             if f.id in self.env and callable(self.env[f.id]):
-                return self.env[f.id](*[self.ev(a) for a in n.args])
+                return self.env[f.id](*[self.ev(a) for a in n.args], **{k.arg: self.ev(k.value) for k in n.keywords if k.arg})
             if f.id in SAFE_BUILTINS:
                 args = [self.ev(a) for a in n.args]
-                if f.id == "len" and len(args) == 1 and isinstance(args[0], Obj) and "_len" in args[0].__dict__:
-                    return args[0].__dict__["_len"]
+                if f.id == "len" and len(args) == 1 and isinstance(args[0], Obj):
+                    if "_len" in args[0].__dict__:
+                        return args[0].__dict__["_len"]
+                    m = self.dunder(args[0], "__len__")
+                    if m is None:
+                        raise _ModelRaise("TypeError: no len()")
+                    return m(args[0])
+                if f.id == "str" and len(args) == 1 and isinstance(args[0], Obj):
+                    return self.to_str(args[0])
+                if f.id in ("list", "tuple", "sorted", "reversed", "enumerate", "any", "all", "set") and args and isinstance(args[0], Obj):
+                    args[0] = self.iterate(args[0])
                 kw = {}
                 for k in n.keywords:
                     if k.arg == "key":
@@ -259,16 +325,26 @@ class Ev:
                     return SAFE_BUILTINS[f.id](*args, **kw)
                 except (ValueError, TypeError) as err:
                     raise _ModelRaise(type(err).__name__) from err
+            if f.id == "iter":
+                return self.iterate(self.ev(n.args[0]))
             raise self.bad(n, "call of an unknown function")
         if isinstance(f, ast.Attribute):
             recv = self.ev(f.value)
             args = [self.ev(a) for a in n.args]
+            kwargs = {k.arg: self.ev(k.value) for k in n.keywords if k.arg}
             if isinstance(recv, Obj):
+                if f.attr in recv.__dict__ and callable(recv.__dict__[f.attr]):
+                    return recv.__dict__[f.attr](*args, **kwargs)
                 for k in recv.kinds:
                     m = self.methods.get((k, f.attr))
                     if m is not None:
-                        return m(recv, *args)
+                        return m(recv, *args, **kwargs)
                 raise self.bad(n, f"no abstract method {f.attr} for {recv.kinds}")
+            if kwargs:
+                raise self.bad(n, "keyword arguments")
+            if isinstance(recv, dict) and f.attr in ("get", "items", "keys", "values", "setdefault", "update", "pop"):
+                r = getattr(recv, f.attr)(*args)
+                return list(r) if f.attr in ("items", "keys", "values") else r
             if isinstance(recv, str) and f.attr == "join":
                 return recv.join(args[0])
             if isinstance(recv, str) and f.attr in STR_METHODS:
@@ -340,7 +416,7 @@ class Ev:
                 self.run(s.body if self.ev(s.test) else s.orelse)
             elif isinstance(s, ast.For):
                 broke = False
-                for item in list(self.ev(s.iter)):
+                for item in self.iterate(self.ev(s.iter)):
                     self.assign(s.target, item)
                     try:
                         self.run(s.body)
@@ -393,21 +469,43 @@ class Ev:
             else:
                 raise self.bad(s)
 
-    def closure(self, fn: ast.FunctionDef) -> Callable:
+    def closure(self, fn: ast.FunctionDef, base_env: dict | None = None) -> Callable:
         params = [a.arg for a in fn.args.args]
+        kwonly = [a.arg for a in fn.args.kwonlyargs]
+        defaults = fn.args.defaults
+        is_gen = any(isinstance(x, (ast.Yield, ast.YieldFrom)) for x in _own_nodes(fn))
+        outer = self.env if base_env is None else base_env
 
-        def call(*args: Any) -> Any:
-            if len(args) != len(params):
+        def call(*args: Any, **kwargs: Any) -> Any:
+            if len(args) > len(params):
                 raise Unsupported(f"{self.where}: arity mismatch calling {fn.name}")
-            sub = Ev({**self.env, **dict(zip(params, args))}, self.where, self.methods, self.max_steps)
+            local = dict(zip(params, args))
+            for k, v in kwargs.items():
+                if k not in params and k not in kwonly:
+                    raise Unsupported(f"{self.where}: unknown keyword {k} calling {fn.name}")
+                local[k] = v
+            sub = Ev({**outer, **local}, self.where, self.methods, self.max_steps)
+            bound = set(local)
+            for name, d in zip(params[len(params) - len(defaults):], defaults):
+                if name not in bound:
+                    sub.env[name] = sub.ev(d)
+                    bound.add(name)
+            for a, d in zip(fn.args.kwonlyargs, fn.args.kw_defaults):
+                if a.arg not in bound and d is not None:
+                    sub.env[a.arg] = sub.ev(d)
+                    bound.add(a.arg)
+            missing = [q for q in params + kwonly if q not in bound]
+            if missing:
+                raise Unsupported(f"{self.where}: missing arguments {missing} calling {fn.name}")
             sub.steps = self.steps
             try:
                 sub.run(fn.body)
-                return None
+                ret = None
             except _Return as r:
-                return r.value
+                ret = r.value
             finally:
                 self.steps = sub.steps
+            return list(sub.yielded) if is_gen else ret
 
         return call
 
@@ -417,6 +515,27 @@ class Ev:
         except _Return as r:
             return r.value
         return None
+
+
+class _Bound:
+    """A method of a model object taken as a value."""
+
+    def __init__(self, obj: "Obj", fn: Callable):
+        self.obj, self.fn = obj, fn
+
+    def __call__(self, *a: Any, **k: Any) -> Any:
+        return self.fn(self.obj, *a, **k)
+
+
+def _own_nodes(fn: ast.AST):
+    """Nodes of ``fn`` excluding nested function / lambda / class bodies."""
+    stack = list(ast.iter_child_nodes(fn))
+    while stack:
+        n = stack.pop()
+        yield n
+        if isinstance(n, (ast.FunctionDef, ast.AsyncFunctionDef, ast.Lambda, ast.ClassDef)):
+            continue
+        stack.extend(ast.iter_child_nodes(n))
 
 
 class _ModelRaise(Exception):
